@@ -298,6 +298,13 @@ func nonFuncFieldsEqual(a0, b0 *Options) string {
 		if f.Name == "History" {
 			continue
 		}
+		if !f.IsExported() {
+			// the parser's own bookkeeping (not readable through reflection from here)
+			if f.Type.Kind() == reflect.Int && va.Field(i).Int() != vb.Field(i).Int() {
+				return fmt.Sprintf("%s: %v vs %v", f.Name, va.Field(i).Int(), vb.Field(i).Int())
+			}
+			continue
+		}
 		if !reflect.DeepEqual(va.Field(i).Interface(), vb.Field(i).Interface()) {
 			return fmt.Sprintf("%s: %v vs %v", f.Name, va.Field(i).Interface(), vb.Field(i).Interface())
 		}
@@ -564,12 +571,30 @@ func TestVerifC17_EnvPrecedence(t *testing.T) {
 		work = t.TempDir()
 	}
 	optsFile := work + "/c17-default-opts"
+	// the history file and its size limit may come from different sources
+	withHistory := append(append([]struct {
+		opt  string
+		vals []string
+	}{}, overridable...), struct {
+		opt  string
+		vals []string
+	}{"--history", []string{work + "/c17-hist-a", work + "/c17-hist-b"}}, struct {
+		opt  string
+		vals []string
+	}{"--history", []string{work + "/c17-hist-a"}}, struct {
+		opt  string
+		vals []string
+	}{"--history-size", []string{"3", "7"}}, struct {
+		opt  string
+		vals []string
+	}{"--no-history", nil})
+	os.WriteFile(work+"/c17-hist-a", []byte("q1\nq2\nq3\nq4\nq5\nq6\nq7\nq8\nq9\n"), 0o600)
 	rapid.Check(t, func(t *rapid.T) {
 		pick := func(label string) []string {
 			n := rapid.IntRange(0, 3).Draw(t, label+"n")
 			var out []string
 			for i := 0; i < n; i++ {
-				o := rapid.SampledFrom(overridable).Draw(t, label+"opt")
+				o := rapid.SampledFrom(withHistory).Draw(t, label+"opt")
 				if o.vals == nil {
 					out = append(out, o.opt)
 				} else {
@@ -616,12 +641,22 @@ func TestVerifC17_EnvPrecedence(t *testing.T) {
 			if d := nonFuncFieldsEqual(got, want); d != "" {
 				t.Fatalf("file %q env %q args %q: layered parse differs from the flat parse of %q in %s", file, env, args, all, d)
 			}
+			if a, b := historySetting(got), historySetting(want); a != b {
+				t.Fatalf("file %q env %q args %q: the layered parse gives %s, the flat parse of %q gives %s", file, env, args, a, all, b)
+			}
 			// --height and --tmux exclude each other: the one given later wins, across the sources
 			if a, b := heightTmuxOrder(got), heightTmuxOrder(want); a != b {
 				t.Fatalf("file %q env %q args %q: --height/--tmux given later is %q in the layered parse and %q in the flat parse of %q", file, env, args, a, b, all)
 			}
 		}
 	})
+}
+
+func historySetting(o *Options) string {
+	if o.History == nil {
+		return "no history"
+	}
+	return fmt.Sprintf("history file %s limited to %d entries (%d loaded)", o.History.path, o.History.maxSize, len(o.History.lines))
 }
 
 // heightTmuxOrder tells which of --height / --tmux the parser recorded as the later one.
@@ -751,4 +786,97 @@ func propC17LastWinsVocabulary(t *rapid.T) {
 
 func TestVerifC17_LastWinsVocabulary(t *testing.T) {
 	rapid.Check(t, propC17LastWinsVocabulary)
+}
+
+// A rule between options (man page, --height): "adaptive height (~) cannot be used with top/bottom
+// margin and padding given in percent size". Margin and padding are written in the one, two,
+// three and four value forms (TRBL / TB,RL / T,RL,B / T,R,B,L); each option may be given several
+// times (the last one counts) in any order. The argument list is rejected if and only if the
+// height in effect is adaptive and a top or bottom margin or padding in effect is a percentage.
+func TestVerifC17_AdaptiveHeightRule(t *testing.T) {
+	rapid.Check(t, func(t *rapid.T) {
+		type side struct {
+			text    string
+			percent bool
+		}
+		drawSides := func(label string) (string, [4]bool) {
+			n := rapid.IntRange(1, 4).Draw(t, label+"Values")
+			vals := make([]side, n)
+			for i := range vals {
+				if rapid.IntRange(0, 2).Draw(t, label+"Percent") == 0 {
+					vals[i] = side{rapid.SampledFrom([]string{"5%", "10%", "1%"}).Draw(t, label+"Pct"), true}
+				} else {
+					vals[i] = side{rapid.SampledFrom([]string{"0", "1", "2"}).Draw(t, label+"Abs"), false}
+				}
+			}
+			var trbl [4]bool // top, right, bottom, left
+			switch n {
+			case 1:
+				trbl = [4]bool{vals[0].percent, vals[0].percent, vals[0].percent, vals[0].percent}
+			case 2:
+				trbl = [4]bool{vals[0].percent, vals[1].percent, vals[0].percent, vals[1].percent}
+			case 3:
+				trbl = [4]bool{vals[0].percent, vals[1].percent, vals[2].percent, vals[1].percent}
+			case 4:
+				trbl = [4]bool{vals[0].percent, vals[1].percent, vals[2].percent, vals[3].percent}
+			}
+			var texts []string
+			for _, v := range vals {
+				texts = append(texts, v.text)
+			}
+			return strings.Join(texts, ","), trbl
+		}
+		var args []string
+		adaptive := false
+		var margin, padding [4]bool
+		nopts := rapid.IntRange(1, 5).Draw(t, "noptions")
+		given := map[string]bool{}
+		for i := 0; i < nopts; i++ {
+			sep := rapid.Bool().Draw(t, "equalsForm")
+			add := func(name, val string) {
+				if sep {
+					args = append(args, name+"="+val)
+				} else {
+					args = append(args, name, val)
+				}
+			}
+			switch what := rapid.SampledFrom([]string{"height", "height", "margin", "padding", "padding", "no-height", "other"}).Draw(t, "option"); what {
+			case "height":
+				h := rapid.SampledFrom([]string{"~50%", "~10", "~100%", "40%", "12", "100%"}).Draw(t, "height")
+				adaptive = strings.HasPrefix(h, "~")
+				add("--height", h)
+			case "no-height":
+				adaptive = false
+				args = append(args, "--no-height")
+			case "margin":
+				text, trbl := drawSides("margin")
+				margin = trbl
+				add("--margin", text)
+			case "padding":
+				text, trbl := drawSides("padding")
+				padding = trbl
+				add("--padding", text)
+			case "other":
+				args = append(args, rapid.SampledFrom([]string{"--border", "--reverse", "--multi", "--no-sort", "--info=inline"}).Draw(t, "otherOption"))
+			}
+			given[args[len(args)-1]] = true
+		}
+		wantErr := adaptive && (margin[0] || margin[2] || padding[0] || padding[2])
+		sidesDiffer := padding[1] != padding[2] || margin[1] != margin[2] || padding[3] != padding[0] || margin[3] != margin[0]
+		vstat.Case("C17/adaptive-height-rule", fmt.Sprintf("%q", args), adaptive && sidesDiffer, fmt.Sprintf("adaptive=%v", adaptive), fmt.Sprintf("rejected=%v", wantErr))
+		if adaptive && sidesDiffer && vstat.WantSample("C17/adaptive-height-rule") {
+			vstat.Sample("C17/adaptive-height-rule", map[string]interface{}{"args": args, "rejected": wantErr})
+		}
+		opts, err := ParseOptions(false, args)
+		if (err != nil) != wantErr {
+			what := "accepted"
+			if err != nil {
+				what = fmt.Sprintf("rejected (%v)", err)
+			}
+			t.Fatalf("fzf %q is %s; the height in effect is adaptive: %v, percent sizes in effect (top, right, bottom, left): margin %v, padding %v", args, what, adaptive, margin, padding)
+		}
+		if err == nil && opts == nil {
+			t.Fatalf("fzf %q: no options and no error", args)
+		}
+	})
 }
